@@ -342,6 +342,31 @@ def run(ctx):
             ctx.notes['schedule_deviations'] = ctx.notes.get('schedule_deviations', 0) + 1
         else:
             ctx.violation('als:trace', 'trace rejected (%s); problem %s' % (v['why'], mt), case={'meta': mt, 'trace': tr})
+    # weights with exact zeros: on some samples only, and on EVERY sample of one slice (the slice is still listed in the
+    # training set, so it is accepted; the minimiser of the weighted regularised objective for that slice is the zero slice)
+    for t in range(8 if quick else 40):
+        d = int(rng.integers(2, 5))
+        n = [int(x) for x in rng.integers(2, 5, size=d)]
+        I = teneva.grid_flat(n)
+        I = np.vstack([I, I[rng.integers(0, len(I), size=5)]])
+        y = rng.normal(size=len(I))
+        w = rng.uniform(0.5, 2., size=len(I))
+        w[rng.random(len(I)) < 0.2] = 0.
+        km = 1 if d > 1 else 0
+        jm = int(rng.integers(n[km]))
+        if t % 2 == 0:
+            w[I[:, km] == jm] = 0.
+        lamb = float(rng.choice([0.5, 1e-2]))
+        Y0 = teneva.rand(n, 2, seed=t)
+        Yw = teneva.als(I, y, [G.copy() for G in Y0], nswp=2, e=None, lamb=lamb, w=w, info={})
+        ctx.case(key=('zero-weights', t, ctx.seed), nontrivial=t % 2 == 0)
+        okw = F.is_wellformed(Yw, n) and [G.shape for G in Yw] == [G.shape for G in Y0]
+        if okw:
+            # the core updated last (core 1; core 0 for d = 1 never occurs here) is the exact minimiser given the others
+            okw = slice_gradients([np.asarray(G) for G in Yw], I, y, w, lamb, 1 if d > 1 else 0) <= 1e-7
+            if okw and t % 2 == 0 and d > 1:
+                okw = float(np.abs(Yw[km][:, jm, :]).max()) <= 1e-12
+        ctx.check(okw, 'als:zero-weights', 'als with weights that vanish on every sample of slice %d of mode %d (n=%s, lamb=%g): the core updated last is not the minimiser of the weighted regularised objective' % (jm, km, n, lamb))
     # missing slice data is rejected in every mode (constant rank, rank-adaptive, weighted) unless explicitly allowed
     for t in range(8 if quick else 40):
         d = int(rng.integers(3, 6))
